@@ -276,7 +276,7 @@ PROPS['C09'] = {
 PROPS['C04'] = {
     'level': 'other',
     'technique': 'Lean 4 model of the whole certificate decoder on octets (Model/CertDer.lean: Cert::decode, TbsCert::from_constructed with all extension readers, names, keys, bcder skip machine) compared with the library on accept/reject and every field; Lean 4 guard lemmas for the repository-specific unwrap()/panic!/arithmetic sites (manifest skip/take parity so FileListIter and iter_uris cannot fail, encode_verify never reaches its panic!, asn_count total and saturating, TLV reader partitions its input) + structure-aware differential fuzzing of all 19 decoding entry points (strict and relaxed) with every accessor and the re-encoding, under catch_unwind, a hang watchdog and a counting allocator, oracle evaluated by the Lean driver',
-    'claim': 'Not a proof of the whole statement: panic-freedom and resource use of bcder, quick-xml and aws-lc on arbitrary octets cannot be carried by the model. Proved (Lean 4, on the models tied to the code by C14/C02/C03): a decoded manifest can always be iterated and resolved (the two unwrap() sites), SignedAttrs::encode_verify cannot reach its panic! for any decoded object, AsBlocks::asn_count is total and saturating, every value read by the TLV layer lies inside its input (strictly shorter nested inputs). Explored: every entry point x {valid objects of every type from an independent encoder, from the library builders and from test-data} x 16 structure-preserving mutations at TLV boundaries (tag, constructed bit, length +-1/zero/huge/indefinite/non-minimal, value bits, fill, truncation, duplication, deletion, splice from other objects) + raw damage + random octets + nesting to depth 2000, each followed by every accessor/iterator and the re-encoding; peak heap must stay below 64*len + 1 MiB (counted by the allocator, machine-independent), hangs caught by the watchdog.',
+    'claim': 'Not a proof of the whole statement: panic-freedom and resource use of bcder, quick-xml and aws-lc on arbitrary octets cannot be carried by the model. Since session 9 five decoders (certificate, CRL, signed object incl. ROA/ASPA/manifest, identity certificate, signed protocol message; strict mode) are total Lean functions on octets compared with the library on accept/reject and every field, and for every octet string they accept the later unwrap() sites are proved unreachable: Crl::contains / iter after Crl::decode, verify_not_revoked after SignedMessage::decode, SignedAttrs::encode_verify after SignedObject / SignedMessage::decode; the model of bcder skip_opt (capture_one, skip_one, skip_all) is proved to leave a proper suffix of its input (at least one header consumed) and to be independent of its loop counter. Proved (Lean 4, on the models tied to the code by C14/C02/C03): a decoded manifest can always be iterated and resolved (the two unwrap() sites), SignedAttrs::encode_verify cannot reach its panic! for any decoded object, AsBlocks::asn_count is total and saturating, every value read by the TLV layer lies inside its input (strictly shorter nested inputs). Explored: every entry point x {valid objects of every type from an independent encoder, from the library builders and from test-data} x 16 structure-preserving mutations at TLV boundaries (tag, constructed bit, length +-1/zero/huge/indefinite/non-minimal, value bits, fill, truncation, duplication, deletion, splice from other objects) + raw damage + random octets + nesting to depth 2000, each followed by every accessor/iterator and the re-encoding; peak heap must stay below 64*len + 1 MiB (counted by the allocator, machine-independent), hangs caught by the watchdog.',
     'note': 'One finding is recorded as known (see KNOWN_FINDINGS.txt): re-encoding any value decoded in relaxed mode panics inside bcder (Mode::Der requested for Mode::Ber captures). Time is bounded only by the generous watchdog, never by a wall-clock threshold.',
     'shards': {'quick': 8, 'thorough': 16},
     'budget': {'quick': 900, 'thorough': 10800},
